@@ -69,6 +69,10 @@ type Check struct {
 	Simpler map[string][]int64
 	// Probes are fixed plans for known findings / regression cases: name -> plan.
 	Probes func() map[string]*Plan
+	// IgnoreBubbleLeak: a goroutine of the code under test that is still blocked
+	// when the bubble ends (e.g. a sampler that does not exit after Close) is
+	// counted, not treated as harness trouble, when the statement is silent on it.
+	IgnoreBubbleLeak bool
 	// LibPaths are path fragments identifying code under test in race reports.
 	LibPaths []string
 }
@@ -105,6 +109,17 @@ func runOne(t *testing.T, c *Check, p *Plan) (res *Result) {
 				res = inner
 				if res.Hash == "" {
 					res.Hash = HashBytes([]byte(res.Key))
+				}
+				if res.Evals == 0 {
+					res.Evals = 1
+				}
+				return
+			}
+			if c.IgnoreBubbleLeak && inner != nil && inner.Key == "" && strings.Contains(fmt.Sprint(r), "blocked goroutines remain") {
+				inner.Stat("goroutines_left_blocked_at_end_of_run", 1)
+				res = inner
+				if res.Hash == "" {
+					res.Hash = HashBytes([]byte("held"))
 				}
 				if res.Evals == 0 {
 					res.Evals = 1
